@@ -2,6 +2,7 @@ package hcv
 
 import (
 	"fmt"
+	"go/token"
 	"go/types"
 	"strings"
 
@@ -481,6 +482,33 @@ func ruleC17_3(c *Ctx) {
 	} else {
 		c.Fail("C17.3", "open-uses-prefix", "Open takes the nonce from the prefix after a length check", fmt.Sprintf("%s: prefix slicing=%v, length check=%v (a short file would panic or be accepted)", c.P.ShortName(dec), okOpen, okLen))
 	}
+	// no short cut around the cipher: every return without error passes Seal (Encrypt) / Open (Decrypt)
+	for _, pair := range []struct {
+		fn   *ssa.Function
+		meth string
+		why  string
+	}{
+		{enc, "Seal", "a value that is handed back unencrypted is written to the file as it is"},
+		{dec, "Open", "stored bytes accepted without authentication: a file truncated to that shape is returned as a valid value"},
+	} {
+		pr := c.An.Prune(pair.fn, nil)
+		r := c.An.MustPass(pr, func(in ssa.Instruction) bool {
+			rt, ok := in.(*ssa.Return)
+			return ok && len(rt.Results) == 2 && isNilConst(c.An.RetVal(rt, 1))
+		}, func(in ssa.Instruction) bool {
+			cc := callOf(in)
+			return cc != nil && cc.IsInvoke() && cc.Method.Name() == pair.meth && len(cc.Args) == 4
+		})
+		d := "every successful return of " + pair.fn.Name() + " passes the AEAD " + pair.meth
+		switch {
+		case r.Targets == 0:
+			c.Pass("C17.3", "no-bypass-"+pair.meth, d, c.P.ShortName(pair.fn)+": no literal nil-error return (the error of "+pair.meth+" is handed on)")
+		case r.OK:
+			c.Pass("C17.3", "no-bypass-"+pair.meth, d, fmt.Sprintf("%s: %d returns", c.P.ShortName(pair.fn), r.Targets))
+		default:
+			c.Fail("C17.3", "no-bypass-"+pair.meth, d, c.P.InstrPos(r.Missing[0])+": returns without error before "+pair.meth+"; "+pair.why)
+		}
+	}
 	// the Open error is returned (authentication failure is not swallowed)
 	okRet := false
 	instrsOf(dec, func(in ssa.Instruction) {
@@ -658,8 +686,32 @@ func ruleC17_5(c *Ctx) {
 	}
 	cs := stringConstsIn(dsn)
 	var probs []string
-	if !cs["on"] || !cs["aesgcm"] {
-		probs = append(probs, "values on/aesgcm not both recognised")
+	// the documented spellings: constants the value of the encrypt parameter is compared with
+	spelled := map[string]bool{}
+	instrsOf(dsn, func(in ssa.Instruction) {
+		bo, ok := in.(*ssa.BinOp)
+		if !ok || bo.Op != token.EQL {
+			return
+		}
+		for _, pr := range [][2]ssa.Value{{bo.X, bo.Y}, {bo.Y, bo.X}} {
+			k, isK := constStr(pr[1])
+			if !isK {
+				continue
+			}
+			if c.An.dependsOnCall(pr[0], func(x *ssa.Call) bool {
+				if !callIsMethod(&x.Call, "net/url", "Values", "Get") {
+					return false
+				}
+				_, a := recvAndArgs(&x.Call)
+				name, ok := constStr(a[0])
+				return ok && name == "encrypt"
+			}) {
+				spelled[k] = true
+			}
+		}
+	})
+	if !spelled["on"] || !spelled["aesgcm"] {
+		probs = append(probs, fmt.Sprintf("the documented values encrypt=on and encrypt=aesgcm are not both recognised (compared with: %v); with the missing spelling the cache silently writes plaintext", sortedKeys(spelled)))
 	}
 	if !cs["FSCACHE_ENCRYPT_KEY"] {
 		probs = append(probs, "environment key FSCACHE_ENCRYPT_KEY not consulted")
